@@ -35,16 +35,20 @@ RULE = ("objects of the four kinds (np.ndarray as 2-way matrix and as 1-/3-/4-wa
         "dropped or replaced 'matrix' line, negative size, zero size (with and without a matching body), empty file); WHITE SPACE "
         "(op wsfile, character-level model): valid files re-written with blanks before / after the tokens of a line, CR LF line "
         "ends, runs of blanks between tokens on header / entry lines and among values, white-space-only lines, no final line "
-        "break; non-trivial = more than one value and not all values equal")
+        "break, TAB / VT / FF as padding of a line, instead of / next to / between the blanks that separate texts on header, "
+        "entry and value lines, and attached to the type word; rank-0 Kruskal tensors and files (incl. junk on the lines import "
+        "drops, missing row lines, rank line 0 over a rank-R body); non-trivial = more than one value and not all values equal")
 CORRESPONDENCE_ONLY = [
     "the number text conversion itself (libc printf / strtod behind numpy tofile / fromfile and float()): that parse(print v) = v "
     "for '%.16e' and that parse(print_fmt v) = float(fmt % v) for a coarser fmt_data / fmt_weights is compared bit-for-bit on "
     "real files; everything else about non-default formats is proved (C16_roundtrip_any_format: what is read back is the object "
     "with every value replaced by parse(print_fmt v))",
     "classification of a white-space-free piece of a file as word / integer text / number text (what int(), np.int64() and "
-    "float() accept: regular expressions in the harness); tabs, VT, FF and lone-CR line ends are outside the character-level "
-    "model (observed: a tab glues two pieces on header / entry lines and separates values; lone CRs make numpy raise "
-    "OverflowError on dense and Kruskal files)",
+    "float() accept: regular expressions in the harness); lone-CR line ends are outside the character-level model (readline "
+    "takes a lone CR as a line end, but when np.fromfile is called right after such a line numpy cannot convert the text "
+    "file's tell() cookie, which then carries the newline decoder's pending-CR state, to a file offset: OverflowError on dense "
+    "and Kruskal files, sparse files are read); white space other than blank / tab / VT / FF / CR / LF (e.g. U+00A0, U+001C-1F) "
+    "is outside the model too",
 ]
 ASSUMPTIONS = [
     "parse (print v) = v for every finite double v, where print is numpy tofile with format '%.16e' (libc printf: 1 + 16 = 17 "
@@ -54,14 +58,14 @@ ASSUMPTIONS = [
     "of libc's printf/strtod is trusted and TESTED bit-for-bit on every double written by the correspondence stream (count in "
     "coverage.explanation); the seeded '%.15e' mutant is detected by these cases. C16_roundtrip_any_format needs no hypothesis",
     "a file is modelled at three levels, each tied to pyttb on real files: characters (Model/C16Text.v: blank / CR / LF / "
-    "white-space-free piece; readline().strip().split(' ') and np.fromfile's skipping as one pass), lines of tokens read line-"
+    "tab-VT-FF / white-space-free piece; readline().strip().split(' ') and np.fromfile's skipping as one pass), lines of tokens read line-"
     "sensitively (Model/C16Lines.v: readline() for header / sparse entry lines, np.fromfile for values), and the plain token "
     "sequence (Model/C16IO.v); C16_tokenise and the line-level theorems connect them",
     "an integer text at a value position denotes the double float(text) (harness: exact bit pattern for |z| < 2^53)",
     "sparse tensors with modes too long for unary numbers are checked against the Z-subscript model (Model/C16Big.v), proved "
     "equal to the nat object model through Z.of_nat on every token stream (C16_long_import_bridge / C16_long_export_bridge)",
 ]
-_STATS = {"doubles": 0, "files": 0, "text_mismatch": 0, "badfiles": 0, "badfiles_accepted": 0}
+_STATS = {"doubles": 0, "files": 0, "text_mismatch": 0, "badfiles": 0, "badfiles_accepted": 0, "cr_overflow": 0}
 EXPLANATION = ""
 
 
@@ -73,7 +77,9 @@ def _explain():
                    "each real file is compared token by token, line by line, with the model's export in Coq; the "
                    "model's import (token-level and line-sensitive) is run on the tokens of the real file and compared with "
                    f"pyttb's import_data result. Malformed stream: {_STATS['badfiles']} mutated files, of which pyttb accepted "
-                   f"{_STATS['badfiles_accepted']}; the line-sensitive model gave pyttb's verdict (and object) on each.")
+                   f"{_STATS['badfiles_accepted']}; the line-sensitive model gave pyttb's verdict (and object) on each. "
+                   f"{_STATS['cr_overflow']} white-space files with CR LF line ends were left out because pyttb raised "
+                   "OverflowError on them (finding C16-N3: np.fromfile cannot use the text file's tell() cookie).")
 
 
 _explain()
@@ -198,8 +204,10 @@ def gen_cases(rng, tier):
             shp = shp + [rng.randint(1, 3)]
         cbits = rand_vals(rng, math.prod(shp))
         cases.append(Case("ndarray", {"shape": shp, "cbits": cbits, "layout": rng.choice(["C", "F"])}, nt(cbits)))
-    # rank-0 Kruskal tensor (constructible with ktensor.from_function(f, shape, 0)): finding C16-N1
-    cases.append(Case("ktensor", {"shape": [2, 3], "weights": [], "factors": [[[], []], [[], [], []]]}, False))
+    # rank-0 Kruskal tensors (constructible with ktensor.from_function(f, shape, 0)): finding C16-N1, repaired in /repo
+    # 20317ef (the witness [2, 3] first); zero sizes and singleton modes with rank 0 too
+    for shp in [(2, 3), (4,), (1, 1, 2), (2, 0), (0,), (3, 1, 2, 2)]:
+        cases.append(Case("ktensor", {"shape": list(shp), "weights": [], "factors": [[[] for _ in range(d)] for d in shp]}, False))
     # optional format arguments: the round trip is claimed for the default only; with another format the LAYOUT is the same
     # and what is read back is the object with every value replaced by float(fmt % value)
     for _ in range(60 if big else 16):
@@ -382,7 +390,8 @@ def _good_file(rng):
         info["nz"] = nz
         L += [[str(x + 1) for x in s_] + [_fv(rng)] for s_ in subs]
     else:
-        R = rng.randint(1, 3)
+        R = rng.choice([0, 1, 2, 3, rng.randint(0, 3)])
+        info["rank"] = R
         L.append([str(R)])
         info["wline"] = len(L)
         L.append([_fv(rng) for _ in range(R)])
@@ -397,7 +406,8 @@ MUTATIONS = ["none", "type_word", "truncate", "header_extra", "sizes_extra", "si
              "line_drop_token", "one_subscript", "base_mismatch_low", "base_mismatch_high", "sub_out_of_range", "reflow_join",
              "reflow_split", "blank_line", "word_value", "float_subscript", "trailing_junk", "nnz_more", "nnz_less", "nnz_negative",
              "drop_matrix_line", "matrix_line_other", "weights_extra", "rank_mismatch", "factor_cols", "factor_1d", "neg_size",
-             "empty_file", "first_line_number", "zero_size", "zero_size_consistent"]
+             "empty_file", "first_line_number", "zero_size", "zero_size_consistent", "rank0_weights_junk", "rank0_rows_junk",
+             "rank0_row_missing", "rank0_in_rank_file", "rank_line_zero"]
 
 
 def gen_badfiles(rng, big):
@@ -507,6 +517,31 @@ def gen_badfiles(rng, big):
                 L[2] = [str(d) for d in shp0]
                 for d in shp0:
                     L += [["matrix"], ["2"], [str(d), str(R)]] + [[_fv(rng) for _ in range(R)] for _ in range(d)]
+        elif mut in ("rank0_weights_junk", "rank0_rows_junk", "rank0_row_missing", "rank0_in_rank_file", "rank_line_zero"):
+            # files around the lines import reads and DROPS for objects without entries (/repo 20317ef)
+            shp0 = list(info["shape"])
+            R = int(L[3][0]) if kind == "ktensor" else 0
+            junk = lambda: rng.choice([["9.0"], ["junk"], ["1.5", "x"], ["matrix"], ["2"]])
+            if mut == "rank_line_zero":
+                if kind != "ktensor" or R == 0:
+                    continue
+                L[3] = ["0"]            # rank line 0 over a file of rank R: one line dropped, then R-column factors refused
+            elif mut == "rank0_in_rank_file":
+                if kind != "ktensor" or R == 0 or not info["mlines"]:
+                    continue
+                j = rng.choice(info["mlines"])     # one factor of a rank-R file declared without columns, body kept or emptied
+                m = int(L[j + 2][0])
+                L[j + 2] = [str(m), "0"]
+                if rng.random() < 0.5:
+                    L[j + 3:j + 3 + m] = [[] for _ in range(m)]
+            else:
+                L = [["ktensor"], [str(len(shp0))], [str(d) for d in shp0], ["0"], junk() if mut == "rank0_weights_junk" else []]
+                for d in shp0:
+                    rows = [junk() if mut == "rank0_rows_junk" else [] for _ in range(d)]
+                    if mut == "rank0_row_missing" and rows and rng.random() < 0.7:
+                        rows = rows[:-1]
+                    L += [["matrix"], ["2"], [str(d), "0"]] + rows
+                kind = "ktensor"
         elif mut == "empty_file":
             L = []
         elif mut == "first_line_number":
@@ -517,7 +552,9 @@ def gen_badfiles(rng, big):
 
 # ---------------------------------------------------------------- white space (character-level model, Model/C16Text.v)
 WS_KINDS = ["styled", "styled", "crlf", "double_blank", "double_blank_values", "ws_only_line", "no_final_newline", "blank_lines_end",
-            "trailing_only", "leading_only"]
+            "trailing_only", "leading_only", "tab_pad", "tab_glue", "tab_glue_values", "tab_attached", "tab_only_piece", "tab_typeword",
+            "tab_mixed"]
+OWS = ["\t", "\t", "\x0b", "\x0c"]        # tab, VT, FF: the atom AOws of Model/C16Text.v
 
 
 def gen_wsfiles(rng, big):
@@ -543,12 +580,42 @@ def gen_wsfiles(rng, big):
                 continue
             j = rng.choice(cands)
             seps[j][rng.randrange(len(seps[j]))] = " " * rng.randint(2, 3)
+        if ws in ("tab_glue", "tab_glue_values", "tab_attached", "tab_only_piece", "tab_mixed"):
+            # tab / VT / FF inside a line: instead of the blank between two texts (one unreadable piece for readline() sites, two
+            # values for np.fromfile), next to it (harmless), or as a piece of their own (unreadable / white space)
+            o = lambda: "".join(rng.choice(OWS) for _ in range(rng.randint(1, 2)))
+            new = {"tab_glue": lambda: o(), "tab_glue_values": lambda: o(),
+                   "tab_attached": lambda: rng.choice([" " + o(), o() + " ", o() + " " + o()]),
+                   "tab_only_piece": lambda: " " + o() + " ",
+                   "tab_mixed": lambda: rng.choice([o(), " " + o(), o() + " ", " " + o() + " ", "  " + o(), o() + "  "])}[ws]
+            values = lambda j: j >= body0 and kind != "sptensor"
+            cands = [j for j in range(len(L)) if len(L[j]) >= 2 and (ws not in ("tab_glue", "tab_glue_values") or values(j) == (ws == "tab_glue_values"))]
+            if not cands:
+                continue
+            for j in (cands if ws == "tab_mixed" else [rng.choice(cands)]):
+                for i in range(len(seps[j])):
+                    if ws != "tab_mixed" or rng.random() < 0.4:
+                        seps[j][i] = new()
+                if ws != "tab_mixed":
+                    seps[j] = [" "] * len(seps[j])
+                    seps[j][rng.randrange(len(seps[j]))] = new()
+        if ws == "tab_typeword":
+            o = rng.choice(OWS)
+            L = [list(ln) for ln in L]
+            L[0] = [kind] + rng.choice([[], ["x"], ["x", "2"]])
+            seps[0] = [" "] * (len(L[0]) - 1)
+            if len(L[0]) >= 2:
+                seps[0][0] = rng.choice([o + " ", " " + o, o, " " + o + " "])
+        pad = lambda n: "".join(rng.choice([" "] + OWS) for _ in range(n))
         text = ""
         for j, ln in enumerate(L):
             lead = rng.choice([0, 0, 1, 3]) if ws in ("styled", "leading_only") else 0
             trail = rng.choice([0, 0, 1, 2]) if ws in ("styled", "trailing_only", "crlf") else 0
             body = "".join(t + (seps[j][i] if i < len(seps[j]) else "") for i, t in enumerate(ln))
             eol = "\r\n" if crlf_all or (ws == "styled" and rng.random() < 0.2) else "\n"
+            if ws in ("tab_pad", "tab_typeword", "tab_mixed"):
+                text += pad(rng.choice([0, 1, 2])) + body + pad(rng.choice([0, 0, 1, 2])) + (rng.choice(["\n", "\r\n"]) if ws == "tab_pad" else "\n")
+                continue
             text += " " * lead + body + " " * trail + eol
         if ws == "ws_only_line":
             parts = text.split("\n")
@@ -566,11 +633,11 @@ def atoms_of(text):
     """the characters of a file as atoms: ' ' / CR / LF one by one, and the maximal pieces free of white space"""
     out, piece = [], ""
     for ch in text:
-        if ch in " \r\n":
+        if ch in " \r\n\t\x0b\x0c":
             if piece:
                 out.append(["t"] + _classify(piece))
                 piece = ""
-            out.append([{" ": "b", "\r": "r", "\n": "n"}[ch]])
+            out.append([{" ": "b", "\r": "r", "\n": "n"}.get(ch, "o")])
         else:
             assert not ch.isspace(), "white space outside the model"
             piece += ch
@@ -589,7 +656,7 @@ def _classify(t):
 
 def gatoms(atoms):
     def ga(a):
-        return {"b": "ABlank", "r": "ACR", "n": "ALF"}[a[0]] if a[0] != "t" else f"(ATok {gtok(a[1:])})"
+        return {"b": "ABlank", "r": "ACR", "n": "ALF", "o": "AOws"}[a[0]] if a[0] != "t" else f"(ATok {gtok(a[1:])})"
     return "(@nil zatom)" if not atoms else "[" + "; ".join(ga(a) for a in atoms) + "]"
 
 
@@ -985,6 +1052,14 @@ def gobj_out(o):
 def coq_check(c, o):
     if c.op == "wsfile":
         b = gz(c.args["base"])
+        if o.get("exc") == "OverflowError" and "\r" in c.args["text"] and "int too big to convert" in o.get("msg", ""):
+            # finding C16-N3: CPython's TextIOWrapper.tell() returned a cookie that carries newline-decoder state (a CR seen,
+            # its LF not yet), which np.fromfile cannot turn into a file offset; whether this happens depends on the
+            # bytes-per-character ratio of the text layer's current chunk (observed only on CR LF files of rank-0 Kruskal
+            # tensors) — not a verdict of import_data's own logic: outside the character-level model, case left out
+            _STATS["cr_overflow"] += 1
+            _explain()
+            return None
         if "exc" in o:
             return f"c16_text_ok {b} {gatoms(o['atoms'])} None"
         got = gobj_out(o)
@@ -1099,8 +1174,6 @@ TRIGGERS = {
     # C19-N14 (open, owned by C19): sptensor.__init__ checks only the upper bound, so import_data with a too large
     # index_base returns a sparse tensor with NEGATIVE subscripts instead of rejecting the file; the model rejects
     "negative_subscript_after_base": _neg_sub,
-    # C16-N1: a Kruskal tensor without components is written with an empty weights line that import never consumes
-    "rank_zero": lambda c: c.op == "ktensor" and len(c.args["weights"]) == 0,
     # C16-N2: objects of order 0 (default-constructed empty tensor / sptensor / ktensor, 0-d array); no case is generated
     # (the object model starts at order 1), the witness replays it
     "order_zero": lambda c: c.op in ("tensor", "sptensor", "ktensor", "ndarray") and c.args.get("shape") == [],
@@ -1124,19 +1197,20 @@ def _w_negsub():
         shutil.rmtree(d, ignore_errors=True)
 
 
-def _w_rank0():
-    import numpy as np
+def _w_crlf_rank0():
     import pyttb as ttb
     d = tempfile.mkdtemp(prefix="c16_")
     try:
         path = os.path.join(d, "w.tns")
-        K = ttb.ktensor.from_function(np.ones, (2, 3), 0)
-        ttb.export_data(K, path)
+        with open(path, "w", newline="") as fh:
+            fh.write("ktensor\r\n2\r\n1 2\r\n0\r\n\r\nmatrix\r\n2\r\n1 0\r\n\r\nmatrix\r\n2\r\n2 0\r\n\r\n\r\n")
         try:
             R = ttb.import_data(path)
+        except OverflowError as ex:
+            return f"the CR LF file of a rank-0 Kruskal tensor of shape (1, 2) raises OverflowError: {str(ex)[:40]}"
         except Exception as ex:
-            return f"export then import of a rank-0 ktensor raises {type(ex).__name__}: {str(ex)[:60]}"
-        return None if isinstance(R, ttb.ktensor) and R.shape == (2, 3) and R.ncomponents == 0 else "rank-0 ktensor not reproduced"
+            return f"the CR LF file of a rank-0 Kruskal tensor raises {type(ex).__name__}"
+        return None if isinstance(R, ttb.ktensor) and R.shape == (1, 2) and R.ncomponents == 0 else "CR LF rank-0 file misread"
     finally:
         shutil.rmtree(d, ignore_errors=True)
 
@@ -1163,4 +1237,4 @@ def _w_order0():
         shutil.rmtree(d, ignore_errors=True)
 
 
-WITNESSES = {"C19-N14": _w_negsub, "C16-N1": _w_rank0, "C16-N2": _w_order0}
+WITNESSES = {"C19-N14": _w_negsub, "C16-N2": _w_order0, "C16-N3": _w_crlf_rank0}
